@@ -91,10 +91,16 @@ static bool body_par(const Case &c, Ctx &ctx)
     static const char *rn[] = {"routine:transform", "routine:merkle", "routine:parcpy/parSetZero"};
     ctx.cls(rn[routine]);
     std::string why;
+    // cold start (property c12.cold, one forked child per case): the TEAM execution is the very first library call of the process, so that
+    // anything initialised lazily on first use is initialised by concurrent members; the single-member reference comes afterwards
+    const bool cold = c.prop == "c12.cold";
+    std::vector<uint64_t> ref1;
+    if (!cold) {
     // reference: single-member execution (also checked against the mathematical oracle for the transforms)
     config(0);
-    std::vector<uint64_t> ref1 = run_routine(c, 1, why, true);
+    ref1 = run_routine(c, 1, why, true);
     if (!why.empty()) return ctx.fail("single-member execution: " + why);
+    } else ctx.cls("cold-start:team-run-first");
     if (pbt_shim_stats) pbt_shim_stats(nullptr, nullptr, nullptr, 1);
     config(orderseed);
     // delivered team size: in 1 of 4 cases the runtime delivers fewer members than requested (cap derived from the order seed)
@@ -105,6 +111,7 @@ static bool body_par(const Case &c, Ctx &ctx)
     if (!why.empty()) return ctx.fail("team of " + std::to_string(team) + ": " + why);
     uint64_t regions = 0, multi = 0, maxteam = 0;
     if (pbt_shim_stats) pbt_shim_stats(&regions, &multi, &maxteam, 0);
+    if (cold) { config(0); ref1 = run_routine(c, 1, why, true); if (!why.empty()) return ctx.fail("single-member execution (after the cold team run): " + why); }
     (void)cap;
     if (team > 1 && (multi > 0 || !pbt_shim_stats)) { ctx.nt(g_mode == 0 ? "team>1:sequential-permuted-order" : g_mode == 1 ? "team>1:pthreads(TSan)" : "team>1:real-libgomp"); }
     else ctx.cls("team=1-or-no-parallel-region");
@@ -168,6 +175,7 @@ int main(int argc, char **argv)
         {"c12.transform", [] { return gen_par(0); }, body_par, 5, false, desc_par, 100},
         {"c12.merkle", [] { return gen_par(1); }, body_par, 3, false, desc_par, 100},
         {"c12.par", [] { return gen_par(2); }, body_par, 2, false, desc_par, 100},
+        {"c12.cold", [] { return rc::gen::exec([] { auto v = *gen_par(*g::irange(0, 1)); if (v[1] < 2) v[1] = 4; if (v[0] == 1) v[3] = (uint64_t)*rc::gen::elementOf(std::vector<int>{ps::V_SEQ, ps::V_BSEQ, ps::V_AVX, ps::V_WRAP}); return v; }); }, body_par, 0.3, true, desc_par, 100},
     };
     return pbt::harness_main((int)args.size(), args.data(), "h_par", props);
 }
